@@ -145,13 +145,7 @@ def step (_ : Unit) (op impl : String) : Unit × DrvOut :=
       | .err => "err"
       | .panic => "panic"
     let m := decrypt (fun _ => b64) (fun _ _ _ => opened) key file
-    let mf := decryptFixed (fun _ => b64) (fun _ _ _ => opened) key file
-    match m with
-    | .panic =>
-      -- decidable class: the base64 text decodes to fewer than 24 bytes
-      if impl == "panic" then ((), { model := "panic", spec := "KNOWN short-ciphertext Decrypt panics on a ciphertext shorter than the 24-byte nonce" })
-      else ((), { model := fmt mf })
-    | _ => ((), { model := fmt m, spec := if impl == "panic" then "FAIL Decrypt panics" else "ok" })
+    ((), { model := fmt m, spec := if impl == "panic" then "FAIL Decrypt panics" else "ok" })
   | "load" :: rest =>
     let args := rest.takeWhile (· != ";;")
     let front := (rest.dropWhile (· != ";;")).drop 1
@@ -160,21 +154,13 @@ def step (_ : Unit) (op impl : String) : Unit × DrvOut :=
     let mk := parseStage (get kv "mk")
     let envKeys : List Bytes := listOf (get kv "env") fun it => hexS ((it.splitOn ":").headD "")
     let panicSpec := if impl == "panic" then "FAIL Load panics" else "ok"
-    let knownEnv : String := "KNOWN env-null-path Load panics when an environment variable addresses a path whose value is null in the file"
-    let envKVs : List (Bytes × Bytes) := listOf (get kv "env") fun it =>
-      match it.splitOn ":" with
-      | [a, b] => (hexS a, hexS b)
-      | _ => ([], [])
-    let nullNames : List Bytes := listOf (get kv "np") hexS
-    -- the two decidable classes of environment-induced panics
+    let pu : List Bytes := listOf (get kv "pu") hexS
+    -- the decidable class of the one open environment finding
     let envClass : Option String :=
-      if envHitsNull nullNames envKeys then some knownEnv
-      else if envEmptyList envKVs then some "KNOWN env-empty-list Load panics when an environment variable with an empty value addresses an optional list parameter that the file does not set"
+      if envNilReceiver pu envKeys then some "KNOWN env-nil-receiver Load panics when a variable extends the name of an unset optional parameter that has an UnmarshalEnv method (nil receiver)"
       else none
-    match loadDecrypt false rk mk with
-    | .panic =>
-      if impl == "panic" then ((), { model := "panic", spec := "KNOWN short-ciphertext Load panics when MTX_CONFKEY is set and the file decodes to fewer than 24 bytes" })
-      else ((), { model := match loadDecrypt true rk mk with | .ok _ => "?" | .err => "err" | .panic => "panic" })
+    match loadDecrypt rk mk with
+    | .panic => ((), { model := "panic", spec := "FAIL Load panics while decrypting" })
     | .err => ((), { model := "err", spec := panicSpec })
     | .ok _ =>
       match front with
